@@ -264,8 +264,10 @@ theorem trackTs_defs (known : Bool) (arch : Nat) (st : Wire.DecState) (fs : List
     · split <;> rfl
     · rfl
 
-theorem AdvW.cons {chk : Bool} {st st' : DecProg.St} {x : Nat} {rest rest' : List Nat}
-    (h0 : AdvW chk st st' (x :: rest) rest') : True := trivial
+theorem AdvW.len {chk : Bool} {st st' : DecProg.St} {rest rest' : List Nat} (h : AdvW chk st st' rest rest') :
+    rest'.length ≤ rest.length := by
+  obtain ⟨c, e, _, _⟩ := h
+  rw [e, List.length_append]; omega
 
 /-- **one record**: `decodeMessage` of (D) on the exact-n reader against `decodeRecord` of (A) -/
 theorem recordW {Φ : DecProg.Out → Prop} (tsKnown : Nat → Bool) (chk : Bool) (st : DecProg.St) (s : Wire.DecState)
@@ -274,7 +276,7 @@ theorem recordW {Φ : DecProg.Out → Prop} (tsKnown : Nat → Bool) (chk : Bool
     (h : match Wire.decodeRecord tsKnown s rest with
       | .error e => ∀ st' e', st'.evs = st.evs → errAofD e' = e → Φ (DecProg.fail st' e')
       | .ok (it, s', rest') => ∀ st', RelW st' s' (seen ++ [wevOfA (.item it)]) → AdvW chk st st' rest rest' →
-          Φ (runExact (k st') rest')) :
+          rest'.length < rest.length → Φ (runExact (k st') rest')) :
     Φ (runExact (DecProg.message chk st k) rest) := by
   unfold DecProg.message
   apply rdN_W
@@ -344,14 +346,15 @@ theorem recordW {Φ : DecProg.Out → Prop} (tsKnown : Nat → Bool) (chk : Bool
           have ha02 : AdvW chk st st2 (hb :: res :: arch :: m0 :: m1 :: n :: bs1) bs1 := ha1.trans ha2
           -- the common last step
           have finish : ∀ (stl : DecProg.St) (ft dt : List DecProg.Triplet) (r : Bytes), Same st stl →
-              AdvW chk st stl (hb :: res :: arch :: m0 :: m1 :: n :: bs1) r →
+              AdvW chk st stl (hb :: res :: arch :: m0 :: m1 :: n :: bs1) r → r.length ≤ bs1.length →
               (∀ st', RelW st' { s with defs := (hb &&& 15, ⟨hb, arch, mesgNum, ft.map fdOfT, dt.map ddOfT⟩) :: s.defs }
                   (seen ++ [wevOfA (.item (.def_ (hb &&& 15) ⟨hb, arch, mesgNum, ft.map fdOfT, dt.map ddOfT⟩))]) →
-                AdvW chk st st' (hb :: res :: arch :: m0 :: m1 :: n :: bs1) r → Φ (runExact (k st') r)) →
+                AdvW chk st st' (hb :: res :: arch :: m0 :: m1 :: n :: bs1) r →
+                r.length < (hb :: res :: arch :: m0 :: m1 :: n :: bs1).length → Φ (runExact (k st') r)) →
               Φ (runExact (k { stl with defs := (hb &&& Fit.Gen.Integ.localMesgNumMask, ⟨arch, mesgNum, ft, dt⟩) :: stl.defs,
                                         evs := DecProg.Ev.def_ hb arch mesgNum ft dt :: stl.evs }) r) := by
-            intro stl ft dt r hsl hal hk
-            apply hk
+            intro stl ft dt r hsl hal hrl hk
+            refine hk _ ?_ ?_ (by simp only [List.length_cons]; omega)
             · constructor
               · simp only [List.map_cons, defOfW, tripWF_fdOfT, tripWD_ddOfT]
                 rw [hsl.defs, hrel.defs]; rfl
@@ -419,10 +422,10 @@ theorem recordW {Φ : DecProg.Out → Prop} (tsKnown : Nat → Bool) (chk : Bool
                     · intro hl4 st5 hs5 ha5
                       simp only [hl4, if_true] at h
                       exact finish st5 (DecProg.triplets (bs1.take (n * 3))) (DecProg.triplets (bs3.take (kk * 3))) _
-                        (hs04.trans hs5) (ha04.trans ha5) h
+                        (hs04.trans hs5) (ha04.trans ha5) ((ha3.trans ha4).trans ha5).len h
               · rw [if_neg (fun hc => hdev (hdm.mp hc))]
                 simp only [hdev, Bool.false_eq_true, if_false] at h
-                have := finish st3 (DecProg.triplets (bs1.take (n * 3))) [] _ hs03 ha03 (by simpa using h)
+                have := finish st3 (DecProg.triplets (bs1.take (n * 3))) [] _ hs03 ha03 ha3.len (by simpa using h)
                 simpa using this
     · -- data record
       rw [if_neg (fun hc => hdef (hmask.mp hc))]
@@ -499,5 +502,86 @@ theorem recordW {Φ : DecProg.Out → Prop} (tsKnown : Nat → Bool) (chk : Bool
             · exact (ha1.trans ha2).trans (by
                 obtain ⟨c, e1, e2, e3⟩ := ha3
                 exact ⟨c, e1, by simpa using e2, by simpa using e3⟩)
+            · have h1 := ha2.len
+              have h2 := ha3.len
+              simp only [List.length_cons]; omega
+
+def itemsW (items : List Wire.Item) : List WEv := items.map fun it => wevOfA (.item it)
+
+/-- **the record loop**: `decodeMessages` of (D) against `decodeRecords` of (A) -/
+theorem recordsW {Φ : DecProg.Out → Prop} (tsKnown : Nat → Bool) (chk : Bool) (ds : Nat) (k : DecProg.St → DecProg.P)
+    (hinv : ∀ st', Φ (DecProg.fail st' .invalidBaseType)) :
+    ∀ (fuelA fuelD : Nat) (st : DecProg.St) (s : Wire.DecState) (seen : List WEv) (bs : Bytes) (remaining : Nat),
+    RelW st s seen → bs.length ≤ fuelA → ds ≤ st.cur + fuelD → remaining = ds - st.cur →
+    (match Wire.decodeRecords tsKnown fuelA s remaining bs with
+      | (items, .error e) => ∀ st' e', st'.evs.reverse.map wevOfD = seen ++ itemsW items → errAofD e' = e → Φ (DecProg.fail st' e')
+      | (items, .ok rest') => ∀ st', st'.evs.reverse.map wevOfD = seen ++ itemsW items → AdvW chk st st' bs rest' →
+          Φ (runExact (k st') rest')) →
+    Φ (runExact (DecProg.messages chk ds fuelD st k) bs) := by
+  intro fuelA
+  induction fuelA with
+  | zero =>
+    intro fuelD st s seen bs remaining hrel hfa hfd hrem h
+    have hbs : bs = [] := List.eq_nil_of_length_eq_zero (by omega)
+    subst hbs
+    unfold Wire.decodeRecords at h
+    by_cases hlt : st.cur < ds
+    · have hr : ¬ remaining = 0 := by omega
+      simp only [hr, if_false] at h
+      obtain ⟨f, rfl⟩ : ∃ f, fuelD = f + 1 := ⟨fuelD - 1, by omega⟩
+      unfold DecProg.messages DecProg.message
+      simp only [hlt, if_true]
+      apply rdN_W
+      · intro _ e; exact h st (.io e) (by simp [itemsW, hrel.evs]) rfl
+      · intro hc; simp at hc
+    · have hr : remaining = 0 := by omega
+      simp only [hr, if_true] at h
+      have := h st (by simp [itemsW, hrel.evs]) (AdvW.refl _ _ _)
+      cases fuelD with
+      | zero => simpa [DecProg.messages] using this
+      | succ f => simpa [DecProg.messages, hlt] using this
+  | succ fuelA ih =>
+    intro fuelD st s seen bs remaining hrel hfa hfd hrem h
+    unfold Wire.decodeRecords at h
+    by_cases hlt : st.cur < ds
+    · have hr : ¬ remaining = 0 := by omega
+      simp only [hr, if_false] at h
+      obtain ⟨f, rfl⟩ : ∃ f, fuelD = f + 1 := ⟨fuelD - 1, by omega⟩
+      unfold DecProg.messages
+      simp only [hlt, if_true]
+      apply recordW tsKnown chk st s seen _ bs hrel (fun st' _ => hinv st')
+      cases hd : Wire.decodeRecord tsKnown s bs with
+      | error e =>
+        rw [hd] at h
+        simp only at h ⊢
+        intro st' e' he hee
+        exact h st' e' (by rw [he]; simp [itemsW, hrel.evs]) hee
+      | ok p =>
+        obtain ⟨it, s', rest⟩ := p
+        rw [hd] at h
+        simp only at h ⊢
+        intro st' hrel' ha hlen
+        obtain ⟨c, hc1, hc2, hc3⟩ := ha
+        have hcl : bs.length - rest.length = c.length := by rw [hc1, List.length_append]; omega
+        apply ih f st' s' (seen ++ [wevOfA (.item it)]) rest (remaining - (bs.length - rest.length)) hrel' (by omega)
+          (by rw [hc2]; rw [hc1, List.length_append] at hlen; omega) (by rw [hcl, hc2, hrem]; omega)
+        rcases hdr : Wire.decodeRecords tsKnown fuelA s' (remaining - (bs.length - rest.length)) rest with ⟨its, r⟩
+        rw [hdr] at h
+        simp only at h ⊢
+        cases r with
+        | error e =>
+          simp only at h ⊢
+          intro st2 e' he hee
+          exact h st2 e' (by rw [he]; simp [itemsW, List.append_assoc]) hee
+        | ok rest2 =>
+          simp only at h ⊢
+          intro st2 he ha2
+          exact h st2 (by rw [he]; simp [itemsW, List.append_assoc]) (AdvW.trans ⟨c, hc1, hc2, hc3⟩ ha2)
+    · have hr : remaining = 0 := by omega
+      simp only [hr, if_true] at h
+      have := h st (by simp [itemsW, hrel.evs]) (AdvW.refl _ _ _)
+      cases fuelD with
+      | zero => simpa [DecProg.messages] using this
+      | succ f => simpa [DecProg.messages, hlt] using this
 
 end Fit.Link
